@@ -13,7 +13,10 @@ for d in seeded/C*/; do
   r=$(NO_REBUILD=1 ./tools/try_mutant.sh $p /verif/$d/patch.diff quick 2>&1)
   res=$(echo "$r" | grep RESULT | sed 's/ (.*//')
   sigs=$(echo "$r" | grep "violation signature" | sed 's/.*signature: //' | head -3 | tr '\n' ';')
-  echo "$id $res [$p] $sigs" | tee -a $OUT
+  # how many runs met the most frequent violation, and the total over all signatures (a change met by
+  # one or two seeded runs only is caught by luck; one met by a directed scenario is caught always)
+  hits=$(echo "$r" | grep -o "\[[0-9]* of [0-9]* runs, first seed [0-9]*\]" | sed 's/\[\([0-9]*\) of .*first seed \([0-9]*\)\]/\1@\2/' | tr '\n' ',' )
+  echo "$id $res [$p] $sigs hits=$hits" | tee -a $OUT
 done
 ./check build > /dev/null 2>&1
 git -C /repo status --short | head -3
